@@ -654,6 +654,14 @@ impl<Writer: Write> Mp4Writer<Writer> {
         if self.finalized {
             return Err(io::Error::other("mp4 writer already finalised"));
         }
+        // Width and height are 16-bit fields of the visual sample entry (and 16.16 fixed point
+        // in tkhd).  Report values that do not fit instead of asserting on them later.
+        if video.width > u16::MAX as u32 || video.height > u16::MAX as u32 {
+            return Err(io::Error::new(
+                io::ErrorKind::InvalidInput,
+                "video width/height must fit in 16 bits",
+            ));
+        }
         self.finalized = true;
 
         let video_config = self
